@@ -93,10 +93,14 @@ def module_source(name: str, pkg: dict, visible: int, invisible: int, graph: dic
 	if name == 'ma':
 		t, e, vals = [('int', 'n + 1', (1, 2)), ('str', 'str(n)', (3, 4)), ('float', 'float(n)', (5, 7))][visible]
 		return ('from enum import Enum\n\nclass E(Enum):\n\tA = %d\n\tB = %d\n\nclass K:\n\tx: %s\n\n\tdef __init__(self, x: %s) -> None:\n\t\tself.x = x\n\n'
-			'def make(n: int) -> %s:\n\tc = %d\n\treturn %s\n') % (vals[0], vals[1], t, t, t, invisible, e)
+			'def make(n: int) -> %s:\n\tc = %d\n\treturn %s\n') % (vals[0], vals[1], t, t, t, invisible, e) + (
+			# symbols with more than ten attributes and nested type arguments: their order and nesting must survive the symbol cache
+			'\ndef wide(p0: int, p1: str, p2: float, p3: bool, p4: int, p5: str, p6: list[int], p7: dict[str, int], p8: int, p9: str, p10: float) -> %s:\n\tn = p0\n\treturn %s\n'
+			'\ndef deep(n: int) -> dict[str, list[tuple[int, %s]]]:\n\treturn {"k": [(n, %s)]}\n') % (t, e, t, e)
 	if name == 'mb':
 		top = ['make(1)', '[make(2)]'][visible]
-		return (imp('ma', 'make, K, E') + f'\nTOP = {top}\n\ndef use(n: int) -> None:\n\tc = {invisible}\n\tv = make(n)\n\tw = [v]\n\tk = K(make(n))\n\tkx = k.x\n\te = E.A.value\n\tb = E.B\n')
+		return (imp('ma', 'make, K, E, wide, deep') + f'\nTOP = {top}\n\ndef use(n: int) -> None:\n\tc = {invisible}\n\tv = make(n)\n\tw = [v]\n\tk = K(make(n))\n\tkx = k.x\n\te = E.A.value\n\tb = E.B\n'
+			"\tww = wide(n, 'a', 1.0, True, 2, 'b', [n], {'k': n}, 3, 'c', 2.0)\n\twl = [ww]\n\tdd = deep(n)\n\tde = dd['k']\n")
 	if name == 'mc':
 		return imp('mb', 'TOP') + f'\ndef g(n: int) -> None:\n\tc = {invisible}\n\tz = TOP\n\tzz = [z]\n'
 	if name == 'md':
